@@ -1,4 +1,6 @@
 import GIV.Lemmas.CachePutFrame
+import GIV.Lemmas.CachePutReadSet
+import GIV.Lemmas.CachePutShared
 /-!
 # C12 — an interrupted or failing Put leaves the cache consistent
 
@@ -194,6 +196,350 @@ theorem failed_put_unrelated (hy : Hyps P offered) {now : Int} {proc : Nat} {id 
     · exact put_run_frame hy hoff hex hst (by simpa [putOut] using h) (by simp)
 
 example : OpExec toyP 5 0 (.put 1 ⟨false, [7], true, [7]⟩) emptyFS emptyFS (.ret .err) := ⟨rfl, rfl⟩
+
+/-! ### what the lookups of another id read, and hence report, after a failed Put -/
+
+/-- id 2 is stored with the 1-byte content `[7]`: output file `[7]`-d and index file 2-a; nothing else. -/
+def twoFS : FS Nat Bytes :=
+  { names := fun p => if p = .data [7] then some 0 else if p = .index 2 then some 1 else none,
+    inodes := fun i => if i = 0 then some ⟨.data [7], [7]⟩ else if i = 1 then some ⟨.index 2, toyEnc 2 [7] 1 0⟩ else none,
+    nextIno := 2, fds := fun _ => none, nextFd := 0 }
+
+theorem twoFS_inv : FSInv toyP toyOffered twoFS := by
+  refine ⟨⟨?_, ?_⟩, ?_⟩
+  · intro p i h
+    simp only [twoFS] at h ⊢
+    split at h
+    · next hp => cases h; exact ⟨⟨.data [7], [7]⟩, by simp, hp.symm⟩
+    · split at h
+      · next hp => cases h; exact ⟨⟨.index 2, toyEnc 2 [7] 1 0⟩, by simp, hp.symm⟩
+      · cases h
+  · intro i nd h
+    simp only [twoFS] at h ⊢
+    split at h
+    · omega
+    · split at h
+      · omega
+      · cases h
+  · intro p i nd _ hp hi
+    simp only [twoFS] at hp hi
+    split at hp
+    · next hpe =>
+      cases hp
+      simp at hi
+      subst hi; subst hpe
+      intro c hc hh
+      rcases hc with rfl | rfl
+      · right; rfl
+      · exact absurd hh (by decide)
+    · split at hp
+      · next hpe =>
+        cases hp
+        simp at hi
+        subst hi; subst hpe
+        exact Or.inr ⟨[7], 0, Or.inl rfl, rfl⟩
+      · cases hp
+
+set_option maxRecDepth 8000 in
+/-- in `twoFS`, `Put(1, toySrc)` fails: its write of the output is short (the one fault), it truncates and returns an error. -/
+theorem twoFS_put_fails : ∃ fs', OpExec toyP 5 0 (.put 1 toySrc) twoFS fs' (.ret .err) := by
+  apply Exists.intro
+  show OpRun toyP 5 0 (.put 1 toySrc) _ .pStat false _ _
+  apply OpRun.step (fault := .none) (n := 0) (FaultStep.none false)
+  · rfl
+  apply OpRun.step (fault := .none) (n := 0) (FaultStep.none false)
+  · rfl
+  apply OpRun.step (fault := .short 1) (n := 2) (FaultStep.short 1)
+  · rfl
+  apply OpRun.step (fault := .none) (n := 0) (FaultStep.none true)
+  · rfl
+  apply OpRun.done (fault := .none) (n := 0) (FaultStep.none true)
+  rfl
+
+set_option maxRecDepth 8000 in
+/-- in `twoFS`, a fault-free `GetFile(2)` names the output file of `[7]`. -/
+theorem twoFS_getFile : ∃ fs1, OpExec toyP 6 1 (.getFile 2) twoFS fs1 (.ret (.file ⟨[7], 1⟩ (some [7]))) := by
+  apply Exists.intro
+  show OpRun toyP 6 1 (.getFile 2) _ .gOpen false _ _
+  apply OpRun.step (fault := .none) (n := 0) (FaultStep.none false)
+  · rfl
+  apply OpRun.step (fault := .none) (n := 0) (FaultStep.none false)
+  · rfl
+  apply OpRun.step (fault := .none) (n := 0) (FaultStep.none false)
+  · rfl
+  apply OpRun.step (fault := .none) (n := 0) (FaultStep.none false)
+  · rfl
+  apply OpRun.step (fault := .none) (n := 0) (FaultStep.none false)
+  · rfl
+  apply OpRun.step (fault := .none) (n := 0) (FaultStep.none false)
+  · rfl
+  apply OpRun.done (fault := .none) (n := 0) (FaultStep.none false)
+  rfl
+
+/-- **The read set of the lookups** (`GIV.Lemmas.CachePutReadSet`): what `get` / `GetFile` / `GetBytes` of an
+id report — under every fault placement, chunking and mtime-test outcome — is determined by the index file
+of that id and the data file named by the OutputID that index file parses to.  If two (structurally sound)
+directories agree on these two files (`ReadAgree`: existence and bytes), the lookup has the same possible
+outcomes in both, result for result, byte for byte. -/
+theorem lookup_reads_only_its_two_files {op : Op Id} (hop : isLookup op = true) {fs1 fs2 : FS Id Hsh}
+    (hag : ReadAgree P op.id fs1 fs2) (now : Int) (proc : Nat) (o : Outcome Hsh) :
+    (∃ fs1', OpExec P now proc op fs1 fs1' o) ↔ (∃ fs2', OpExec P now proc op fs2 fs2' o) :=
+  lookup_readset_iff hop hag now proc o
+
+/-- the same directory with some descriptor left open and a foreign file added agrees with `twoFS` on the read set of id 2. -/
+example : ∃ fs2 : FS Nat Bytes, fs2.content (.data [9]) ≠ twoFS.content (.data [9]) ∧ ReadAgree toyP 2 twoFS fs2 ∧
+    ∃ fs2', OpExec toyP 6 1 (.getFile 2) fs2 fs2' (.ret (.file ⟨[7], 1⟩ (some [7]))) := by
+  let fs2 : FS Nat Bytes :=
+    { names := fun p => if p = .data [9] then some 2 else twoFS.names p,
+      inodes := fun i => if i = 2 then some ⟨.data [9], [1, 2]⟩ else twoFS.inodes i,
+      nextIno := 3, fds := fun fd => if fd = 0 then some ⟨2, 1, 4⟩ else none, nextFd := 1 }
+  have hst : Struct fs2 := by
+    refine ⟨?_, ?_⟩
+    · intro p i h
+      simp only [fs2] at h ⊢
+      split at h
+      · next hp => cases h; exact ⟨⟨.data [9], [1, 2]⟩, by simp, hp.symm⟩
+      · obtain ⟨nd, h1, h2⟩ := twoFS_inv.1.named p i h
+        have : i ≠ 2 := by have := twoFS_inv.1.bound i nd h1; simp [twoFS] at this; omega
+        exact ⟨nd, by simp [this, h1], h2⟩
+    · intro i nd h
+      simp only [fs2] at h ⊢
+      split at h
+      · omega
+      · have := twoFS_inv.1.bound i nd h; simp [twoFS] at this; omega
+  have hag : ReadAgree toyP 2 twoFS fs2 := by
+    refine ⟨twoFS_inv.1, hst, rfl, ?_⟩
+    intro d e hd he
+    have hd' : d = toyEnc 2 [7] 1 0 := by
+      have : twoFS.content (.index 2) = some (toyEnc 2 [7] 1 0) := rfl
+      rw [this] at hd; exact (Option.some.inj hd).symm
+    subst hd'
+    have he' : e = ⟨[7], 1⟩ := by
+      have : toyP.parse 2 (toyEnc 2 [7] 1 0) = some ⟨[7], 1⟩ := toyHyps.parseEnc 2 [7] 0 (Or.inl rfl)
+      rw [this] at he; exact (Option.some.inj he).symm
+    subst he'
+    rfl
+  refine ⟨fs2, by decide, hag, ?_⟩
+  exact (lookup_reads_only_its_two_files (op := .getFile 2) rfl hag 6 1 _).mp twoFS_getFile
+
+/-- **A failed Put never makes unrelated entries unreadable — on what the lookups report.**  Whatever
+fault hits `Put(id, s)` and wherever it stops (same hypotheses as `failed_put_unrelated`; the Put may also
+succeed), for every lookup `op` (`get`, `GetFile`, `GetBytes`) of another id whose index file, as far as it
+parses, does not name the output this Put writes (`P.H s.data1`): the directory after the Put agrees with
+the directory before it on everything the lookup reads, hence the lookup has exactly the same possible
+outcomes — the same reported entry, file and bytes — after the Put as before it. -/
+theorem failed_put_lookups_unchanged (hy : Hyps P offered) {now : Int} {proc : Nat} {id : Id} {s : Src}
+    (hoff : offered s.data1) {fs fs' : FS Id Hsh} {o : Outcome Hsh} (hinv : FSInv P offered fs)
+    (hex : OpExec P now proc (.put id s) fs fs' o)
+    {op : Op Id} (hop : isLookup op = true) (hid : op.id ≠ id)
+    (hout : ∀ d e, fs.content (.index op.id) = some d → P.parse op.id d = some e → e.out ≠ P.H s.data1) :
+    ReadAgree P op.id fs fs' ∧
+    ∀ (now' : Int) (proc' : Nat) (o' : Outcome Hsh),
+      (∃ fs1, OpExec P now' proc' op fs fs1 o') ↔ (∃ fs2, OpExec P now' proc' op fs' fs2 o') := by
+  obtain ⟨h1, h2⟩ := failed_put_unrelated hy hoff hinv hex
+  have hinv' : FSInv P offered fs' := opExec_inv hy (op := .put id s) hoff hinv hex
+  have hag : ReadAgree P op.id fs fs' :=
+    ⟨hinv.1, hinv'.1, h1 _ hid, fun d e hd he => h2 e.out (hout d e hd he)⟩
+  exact ⟨hag, fun now' proc' o' => lookup_readset_iff hop hag now' proc' o'⟩
+
+/-- two ids: id 2 is stored with content `[7]`; `Put(1, [8, 9, 10])` fails (short write, then `Truncate(0)`);
+`GetFile(2)` still names the file holding `[7]`. -/
+example : ∃ fs', OpExec toyP 5 0 (.put 1 toySrc) twoFS fs' (.ret .err) ∧
+    ∃ fs2, OpExec toyP 6 1 (.getFile 2) fs' fs2 (.ret (.file ⟨[7], 1⟩ (some [7]))) := by
+  obtain ⟨fs', hput⟩ := twoFS_put_fails
+  refine ⟨fs', hput, ?_⟩
+  have hout : ∀ d e, twoFS.content (.index (Op.getFile 2).id) = some d → toyP.parse (Op.getFile 2).id d = some e →
+      e.out ≠ toyP.H toySrc.data1 := by
+    intro d e hd he
+    have hd' : d = toyEnc 2 [7] 1 0 := by
+      have : twoFS.content (.index 2) = some (toyEnc 2 [7] 1 0) := rfl
+      rw [show (Op.getFile 2).id = 2 from rfl, this] at hd; exact (Option.some.inj hd).symm
+    subst hd'
+    have : toyP.parse 2 (toyEnc 2 [7] 1 0) = some ⟨[7], 1⟩ := toyHyps.parseEnc 2 [7] 0 (Or.inl rfl)
+    rw [show (Op.getFile 2).id = 2 from rfl, this] at he
+    cases he
+    decide
+  exact ((failed_put_lookups_unchanged toyHyps (Or.inr rfl) twoFS_inv hput (op := .getFile 2) rfl (by decide) hout).2
+    6 1 _).mp twoFS_getFile
+
+/-! ### shared outputs: the other id's entry names the SAME output as the failing Put -/
+
+/-- id 2 is stored with content `[8, 9, 10]`: the output file is complete and valid, the index file of id 2 names it. -/
+def sharedFS : FS Nat Bytes :=
+  { names := fun p => if p = .data [8, 9, 10] then some 0 else if p = .index 2 then some 1 else none,
+    inodes := fun i => if i = 0 then some ⟨.data [8, 9, 10], [8, 9, 10]⟩
+      else if i = 1 then some ⟨.index 2, toyEnc 2 [8, 9, 10] 3 0⟩ else none,
+    nextIno := 2, fds := fun _ => none, nextFd := 0 }
+
+theorem sharedFS_inv : FSInv toyP toyOffered sharedFS := by
+  refine ⟨⟨?_, ?_⟩, ?_⟩
+  · intro p i h
+    simp only [sharedFS] at h ⊢
+    split at h
+    · next hp => cases h; exact ⟨⟨.data [8, 9, 10], [8, 9, 10]⟩, by simp, hp.symm⟩
+    · split at h
+      · next hp => cases h; exact ⟨⟨.index 2, toyEnc 2 [8, 9, 10] 3 0⟩, by simp, hp.symm⟩
+      · cases h
+  · intro i nd h
+    simp only [sharedFS] at h ⊢
+    split at h
+    · omega
+    · split at h
+      · omega
+      · cases h
+  · intro p i nd _ hp hi
+    simp only [sharedFS] at hp hi
+    split at hp
+    · next hpe =>
+      cases hp
+      simp at hi
+      subst hi; subst hpe
+      intro c hc hh
+      rcases hc with rfl | rfl
+      · exact absurd hh (by decide)
+      · right; rfl
+    · split at hp
+      · next hpe =>
+        cases hp
+        simp at hi
+        subst hi; subst hpe
+        exact Or.inr ⟨[8, 9, 10], 0, Or.inr rfl, rfl⟩
+      · cases hp
+
+set_option maxRecDepth 8000 in
+/-- in `sharedFS`, a fault-free `GetFile(2)` names the output file of `[8, 9, 10]`. -/
+theorem sharedFS_getFile : ∃ fs1, OpExec toyP 6 1 (.getFile 2) sharedFS fs1 (.ret (.file ⟨[8, 9, 10], 3⟩ (some [8, 9, 10]))) := by
+  apply Exists.intro
+  show OpRun toyP 6 1 (.getFile 2) _ .gOpen false _ _
+  apply OpRun.step (fault := .none) (n := 0) (FaultStep.none false)
+  · rfl
+  apply OpRun.step (fault := .none) (n := 0) (FaultStep.none false)
+  · rfl
+  apply OpRun.step (fault := .none) (n := 0) (FaultStep.none false)
+  · rfl
+  apply OpRun.step (fault := .none) (n := 0) (FaultStep.none false)
+  · rfl
+  apply OpRun.step (fault := .none) (n := 0) (FaultStep.none false)
+  · rfl
+  apply OpRun.step (fault := .none) (n := 0) (FaultStep.none false)
+  · rfl
+  apply OpRun.done (fault := .none) (n := 0) (FaultStep.none false)
+  rfl
+
+/-- the first pass yields `[8, 9, 10]`; the second `Seek(0, 0)` fails. -/
+def seekFailSrc : Src := ⟨true, [8, 9, 10], false, [8, 9, 10]⟩
+
+set_option maxRecDepth 8000 in
+/-- **Negative result (inside the property's fault model): a shared output IS damaged.**  The statement of
+`failed_put_lookups_unchanged` does not extend to an id' whose entry names the same output as the failing
+Put, even when that output file is complete and valid and the source's first pass yields exactly its
+content.  History (one file-operation fault, plus a source that misbehaves on its second pass — the
+combination the fault model of C12 allows): id 2 is stored with `[8, 9, 10]`; `Put(1, [8, 9, 10])`:
+`os.Stat` of the output FAILS (the one fault), so `copyFile` skips the hash guard that protects a complete
+valid output, opens the file without `O_TRUNC`, the second `Seek(0, 0)` of the source fails, and the error
+path runs `f.Truncate(0)` on the valid shared file; Put returns an error.  Before, `GetFile(2)` named a file
+holding `[8, 9, 10]`; afterwards no execution of `GetFile(2)` can report that any more (the directory
+invariant still holds: the entry of id 2 now fails the size gate, as after a Trim of the output). -/
+theorem shared_output_damaged_witness :
+    FSInv toyP toyOffered sharedFS ∧ sharedFS.content (.data (toyP.H seekFailSrc.data1)) = some seekFailSrc.data1 ∧
+    ∃ fs', OpExec toyP 5 0 (.put 1 seekFailSrc) sharedFS fs' (.ret .err) ∧
+      fs'.content (.index 2) = sharedFS.content (.index 2) ∧
+      (∃ fs1, OpExec toyP 6 1 (.getFile 2) sharedFS fs1 (.ret (.file ⟨[8, 9, 10], 3⟩ (some [8, 9, 10])))) ∧
+      ¬ (∃ fs2, OpExec toyP 6 1 (.getFile 2) fs' fs2 (.ret (.file ⟨[8, 9, 10], 3⟩ (some [8, 9, 10])))) := by
+  refine ⟨sharedFS_inv, rfl, ?_⟩
+  have hput : ∃ fs', OpExec toyP 5 0 (.put 1 seekFailSrc) sharedFS fs' (.ret .err) ∧
+      fs'.content (.index 2) = sharedFS.content (.index 2) ∧ fs'.content (.data [8, 9, 10]) = some [] := by
+    apply Exists.intro
+    apply And.intro
+    · show OpRun toyP 5 0 (.put 1 seekFailSrc) _ .pStat false _ _
+      apply OpRun.step (fault := .fail) (n := 0) FaultStep.fail
+      · rfl
+      apply OpRun.step (fault := .none) (n := 0) (FaultStep.none true)
+      · rfl
+      apply OpRun.step (fault := .none) (n := 0) (FaultStep.none true)
+      · rfl
+      apply OpRun.done (fault := .none) (n := 0) (FaultStep.none true)
+      rfl
+    · exact ⟨rfl, rfl⟩
+  obtain ⟨fs', hput, hidx, hdat⟩ := hput
+  refine ⟨fs', hput, hidx, ?_, ?_⟩
+  · exact sharedFS_getFile
+  · rintro ⟨fs2, hget⟩
+    have hinv' : FSInv toyP toyOffered fs' := opExec_inv toyHyps (op := .put 1 seekFailSrc) (Or.inr rfl) sharedFS_inv hput
+    obtain ⟨d, h1, _, h3⟩ := exec_file_gate (op := .getFile 2) rfl hinv'.1 hget
+    rw [hdat] at h3
+    cases h1
+    cases h3
+
+example : ∃ fs', OpExec toyP 5 0 (.put 1 seekFailSrc) sharedFS fs' (.ret .err) :=
+  shared_output_damaged_witness.2.2.imp fun _ h => h.1
+
+/-- the second pass of the source repeats the first: `[8, 9, 10]` twice. -/
+def steadySrc : Src := ⟨true, [8, 9, 10], true, [8, 9, 10]⟩
+
+/-- **Shared outputs, what IS true**: if the output file of the offered content is complete and valid
+before the Put (`fs.content (.data (H c)) = some c`, `c` the bytes of the source's first pass) AND the
+source is steady (its second `Seek(0, 0)` succeeds and its second pass yields `c` again — without this the
+claim is false: `shared_output_damaged_witness`), then whatever single fault hits `Put(id, s)` and wherever
+it stops, that file keeps its bytes — a complete valid output is never truncated, removed or rewritten with
+other bytes — and EVERY lookup of EVERY other id, whether or not its entry names this output, has exactly
+the same possible outcomes after the Put as before it. -/
+theorem failed_put_shared_output (hy : Hyps P offered) {now : Int} {proc : Nat} {id : Id} {s : Src}
+    (hoff : offered s.data1) {fs fs' : FS Id Hsh} {o : Outcome Hsh} (hinv : FSInv P offered fs)
+    (hex : OpExec P now proc (.put id s) fs fs' o)
+    (hvalid : fs.content (.data (P.H s.data1)) = some s.data1)
+    (hsteady : s.seek2 = true ∧ s.data2 = s.data1)
+    {op : Op Id} (hop : isLookup op = true) (hid : op.id ≠ id) :
+    fs'.content (.data (P.H s.data1)) = some s.data1 ∧ ReadAgree P op.id fs fs' ∧
+    ∀ (now' : Int) (proc' : Nat) (o' : Outcome Hsh),
+      (∃ fs1, OpExec P now' proc' op fs fs1 o') ↔ (∃ fs2, OpExec P now' proc' op fs' fs2 o') := by
+  obtain ⟨h1, h2⟩ := failed_put_unrelated hy hoff hinv hex
+  have hinv' : FSInv P offered fs' := opExec_inv hy (op := .put id s) hoff hinv hex
+  have hkeep := put_exec_keeps_valid hy hoff hsteady hinv hex hvalid
+  have hag : ReadAgree P op.id fs fs' := by
+    refine ⟨hinv.1, hinv'.1, h1 _ hid, fun d e _ _ => ?_⟩
+    by_cases he : e.out = P.H s.data1
+    · rw [he, hkeep, hvalid]
+    · exact h2 e.out he
+  exact ⟨hkeep, hag, fun now' proc' o' => lookup_readset_iff hop hag now' proc' o'⟩
+
+set_option maxRecDepth 8000 in
+/-- two ids sharing the output `[8, 9, 10]`: `Put(1, [8, 9, 10])` with a steady source whose `os.Stat` FAILS
+(the one fault: the hash guard is skipped and the valid file is rewritten in place, without `O_TRUNC`, with the
+bytes it already holds); `GetFile(2)` still names the file holding `[8, 9, 10]`. -/
+example : ∃ fs', OpExec toyP 5 0 (.put 1 steadySrc) sharedFS fs' (.ret (.putOk [8, 9, 10] 3)) ∧
+    ∃ fs2, OpExec toyP 6 1 (.getFile 2) fs' fs2 (.ret (.file ⟨[8, 9, 10], 3⟩ (some [8, 9, 10]))) := by
+  have hput : ∃ fs', OpExec toyP 5 0 (.put 1 steadySrc) sharedFS fs' (.ret (.putOk [8, 9, 10] 3)) := by
+    apply Exists.intro
+    show OpRun toyP 5 0 (.put 1 steadySrc) _ .pStat false _ _
+    apply OpRun.step (fault := .fail) (n := 0) FaultStep.fail          -- stat fails
+    · rfl
+    apply OpRun.step (fault := .none) (n := 0) (FaultStep.none true)   -- open, no O_TRUNC
+    · rfl
+    apply OpRun.step (fault := .none) (n := 2) (FaultStep.none true)   -- write [8, 9]
+    · rfl
+    apply OpRun.step (fault := .none) (n := 0) (FaultStep.none true)   -- commit [10]
+    · rfl
+    apply OpRun.step (fault := .none) (n := 0) (FaultStep.none true)   -- close
+    · rfl
+    apply OpRun.step (fault := .none) (n := 0) (FaultStep.none true)   -- chtimes
+    · rfl
+    apply OpRun.step (fault := .none) (n := 0) (FaultStep.none true)   -- deferred close
+    · rfl
+    apply OpRun.step (fault := .none) (n := 0) (FaultStep.none true)   -- index: open
+    · rfl
+    apply OpRun.step (fault := .none) (n := 0) (FaultStep.none true)   -- write
+    · rfl
+    apply OpRun.step (fault := .none) (n := 0) (FaultStep.none true)   -- truncate
+    · rfl
+    apply OpRun.step (fault := .none) (n := 0) (FaultStep.none true)   -- close
+    · rfl
+    apply OpRun.done (fault := .none) (n := 0) (FaultStep.none true)   -- chtimes
+    rfl
+  obtain ⟨fs', hput⟩ := hput
+  refine ⟨fs', hput, ?_⟩
+  exact ((failed_put_shared_output toyHyps (Or.inr rfl) sharedFS_inv hput rfl ⟨rfl, rfl⟩ (op := .getFile 2) rfl
+    (by decide)).2.2 6 1 _).mp sharedFS_getFile
 
 /-- id 1 is stored with content `[8, 9, 10]` (index entry present), a Put(1, [7]) has its index file open. -/
 def tornFS : FS Nat Bytes :=
